@@ -6,7 +6,7 @@ From Mds Require Export Mdiff.Decimal.
 Local Open Scope Z_scope.
 
 Definition line := bytes.
-Definition zlen {A} (l : list A) : Z := Z.of_nat (length l).
+Definition llen {A} (l : list A) : Z := Z.of_nat (length l).
 Definition is_nil {A} (l : list A) : bool := match l with [] => true | _ => false end.
 
 Fixpoint bytes_eqb (a b : bytes) : bool :=
